@@ -35,48 +35,108 @@ class C15(Prop):
                    "the work directory of the target is not a symbolic link (realpath == directory)")
 
     def gen(self, rng, tier):
-        n = {"quick": 18, "thorough": 80, "extended": 60}[tier]
-        hi = 12 if tier == "quick" else 40
+        n = {"quick": 20, "thorough": 80, "extended": 60}[tier]
+        hi = 10 if tier == "quick" else 40
         cases = []
         for i in range(n):
             fix = []
             for role in ("in", "out", "tmp"):
                 r = rng.random()
                 fix.append(None if r < 0.6 else rng.choice([f"fixed/{role}", f"fixed {role}", f"fx/{role}/deep", "shared"]))
-            cases.append({"f": "sched", "n": 1 if i == 0 else rng.randrange(2, hi + 1), "fix": fix})
+            c = {"f": "sched", "n": 1 if i == 0 else rng.randrange(2, hi + 1), "fix": fix}
+            if i % 2 == 1:
+                # shell-backed remote deployment with 2..3 nodes; a job takes 1 or 2 of them
+                c.update({"dep": "shell", "nodes": rng.choice([2, 2, 3]), "locations": rng.choice([1, 2, 2])})
+            cases.append(c)
         return cases
 
     def impl_init(self):
         import asyncio
+        import json
         import os
         import shutil
         import tempfile
 
         from streamflow.core.config import BindingConfig
         from streamflow.core.deployment import DeploymentConfig, Target
+        from streamflow.core.scheduling import AvailableLocation
         from streamflow.core.workflow import Token, Workflow
+        from streamflow.deployment.connector import connector_classes
+        from streamflow.deployment.connector.base import BaseConnector
         from streamflow.main import build_context
         from streamflow.workflow.port import ConnectorPort
         from streamflow.workflow.step import DeployStep, ScheduleStep
         from streamflow.workflow.token import JobToken, TerminationToken
 
+        class ShellNodesConnector(BaseConnector):
+            """A 'remote' deployment of several nodes.  Node <name> is the directory <root>/<name> on this machine,
+            reached through /bin/sh (BaseConnector.run: persistent shell, else a subprocess).  Remote absolute paths
+            live under the virtual root VROOT, which is rewritten to the node's directory in every command and back
+            in every output, so the nodes have separate file systems although they share the machine."""
+
+            VROOT = "/sfvroot"
+
+            def __init__(self, deployment_name, config_dir, root, nodes, transferBufferSize=2**16):
+                super().__init__(deployment_name, config_dir, transferBufferSize)
+                self.root, self.nodes = root, nodes
+
+            @classmethod
+            def get_schema(cls):
+                return json.dumps({"$schema": "https://json-schema.org/draft/2020-12/schema",
+                                   "$id": "https://streamflow.di.unito.it/schemas/verif/shellnodes.json",
+                                   "type": "object",
+                                   "properties": {"root": {"type": "string"}, "nodes": {"type": "integer"}},
+                                   "required": ["root", "nodes"], "additionalProperties": False})
+
+            def node_dir(self, name):
+                return os.path.join(self.root, name) + self.VROOT
+
+            async def deploy(self, external):
+                for k in range(self.nodes):
+                    os.makedirs(self.node_dir(f"n{k + 1}"), exist_ok=True)
+
+            async def get_available_locations(self, service=None):
+                return {f"n{k + 1}": AvailableLocation(name=f"n{k + 1}", deployment=self.deployment_name,
+                                                       service=service, hostname="localhost", local=False)
+                        for k in range(self.nodes)}
+
+            async def run(self, location, command, environment=None, workdir=None, stdin=None,
+                          stdout=asyncio.subprocess.STDOUT, stderr=asyncio.subprocess.STDOUT, capture_output=False,
+                          timeout=None, job_name=None):
+                real = self.node_dir(location.name)
+                res = await super().run(location, [str(x).replace(self.VROOT, real) for x in command], environment,
+                                        workdir.replace(self.VROOT, real) if workdir else workdir, stdin, stdout, stderr,
+                                        capture_output, timeout, job_name)
+                if res is not None and isinstance(res[0], str):
+                    res = (res[0].replace(real, self.VROOT), res[1])
+                return res
+
+        connector_classes["sfv-shellnodes"] = ShellNodesConnector
         self.m = dict(asyncio=asyncio, os=os, shutil=shutil, tempfile=tempfile, BindingConfig=BindingConfig,
                       DeploymentConfig=DeploymentConfig, Target=Target, Token=Token, Workflow=Workflow,
                       build_context=build_context, ConnectorPort=ConnectorPort, DeployStep=DeployStep,
-                      ScheduleStep=ScheduleStep, JobToken=JobToken, TerminationToken=TerminationToken)
+                      ScheduleStep=ScheduleStep, JobToken=JobToken, TerminationToken=TerminationToken,
+                      VROOT=ShellNodesConnector.VROOT)
 
     async def _run(self, c, base):
         m = self.m
         os = m["os"]
         ctx = m["build_context"]({"database": {"type": "default", "config": {"connection": ":memory:"}}, "path": base})
         try:
-            wd = os.path.join(base, "wd")
-            fixed = [os.path.join(base, f) if f else None for f in c["fix"]]
+            shell = c.get("dep") == "shell"
+            vbase = m["VROOT"] if shell else base          # what the step sees as the root of its directories
+            wd = vbase + "/wd"
+            fixed = [vbase + "/" + f if f else None for f in c["fix"]]
             wf = m["Workflow"](ctx, config={}, name="w")
-            dc = m["DeploymentConfig"](name="__LOCAL__", type="local", config={}, external=True, lazy=False, workdir=wd)
+            if shell:
+                dc = m["DeploymentConfig"](name="nodes", type="sfv-shellnodes",
+                                           config={"root": os.path.join(base, "remote"), "nodes": c["nodes"]},
+                                           external=False, lazy=False, workdir=wd)
+            else:
+                dc = m["DeploymentConfig"](name="__LOCAL__", type="local", config={}, external=True, lazy=False, workdir=wd)
             cport = wf.create_port(cls=m["ConnectorPort"])
-            dstep = wf.create_step(cls=m["DeployStep"], name="/__deploy__/local", deployment_config=dc, connector_port=cport)
-            bc = m["BindingConfig"](targets=[m["Target"](deployment=dc, workdir=wd)])
+            dstep = wf.create_step(cls=m["DeployStep"], name="/__deploy__/d", deployment_config=dc, connector_port=cport)
+            bc = m["BindingConfig"](targets=[m["Target"](deployment=dc, workdir=wd, locations=c.get("locations", 1))])
             sstep = wf.create_step(cls=m["ScheduleStep"], name="/s/__schedule__", job_prefix="/s",
                                    connector_ports={dc.name: cport}, binding_config=bc,
                                    input_directory=fixed[0], output_directory=fixed[1], tmp_directory=fixed[2])
@@ -93,12 +153,17 @@ class C15(Prop):
                     j = t.value
                     locs = ctx.scheduler.get_locations(j.name)
                     dirs = [j.input_directory, j.output_directory, j.tmp_directory]
-                    jobs.append({"name": j.name, "dirs": dirs, "nlocs": len(locs),
-                                 "exist": [all(os.path.isdir(d) for _ in locs) for d in dirs],
-                                 "registered": [all(len(ctx.data_manager.get_data_locations(d, l.deployment, l.name)) > 0
-                                                    for l in locs) for d in dirs]})
-            return {"status": sstep.status.name, "jobs": jobs}
+
+                    def real(loc, d):
+                        return os.path.join(base, "remote", loc.name) + d if shell else d
+
+                    jobs.append({"name": j.name, "dirs": dirs, "locs": sorted(l.name for l in locs),
+                                 "exist": [[l.name for l in locs if not os.path.isdir(real(l, d))] for d in dirs],
+                                 "registered": [[l.name for l in locs if not ctx.data_manager.get_data_locations(
+                                     d, l.deployment, l.name)] for d in dirs]})
+            return {"status": sstep.status.name, "jobs": jobs, "vbase": vbase}
         finally:
+            await ctx.deployment_manager.undeploy_all()
             await ctx.close()
 
     def impl_run(self, c):
@@ -108,23 +173,24 @@ class C15(Prop):
             ob = m["asyncio"].run(self._run(c, base))
         finally:
             m["shutil"].rmtree(base, ignore_errors=True)
-        # canonical form: the scratch base becomes /B, drawn names become u0, u1, ... in order of appearance
+        # canonical form: the root becomes /B, drawn names become u0, u1, ... in order of appearance;
+        # "exist"/"registered" list the locations of the job where the directory is missing / not registered
+        vbase = ob.pop("vbase")
         names = {}
 
         def canon(d):
             if d is None:
                 return None
-            if not d.startswith(base):
+            if not d.startswith(vbase + "/"):
                 return "!" + d
-            rel = d[len(base):]
-            cs = comps(rel)
+            cs = comps(d[len(vbase):])
             if len(cs) == 2 and cs[0] == "wd":
                 cs[1] = names.setdefault(cs[1], f"u{len(names)}")
             return "/B/" + "/".join(cs)
 
-        for j in sorted(ob["jobs"], key=lambda j: [int(x) for x in j["name"].rsplit("/", 1)[1].split(".")]):
-            j["dirs"] = [canon(d) for d in j["dirs"]]
         ob["jobs"].sort(key=lambda j: [int(x) for x in j["name"].rsplit("/", 1)[1].split(".")])
+        for j in ob["jobs"]:
+            j["dirs"] = [canon(d) for d in j["dirs"]]
         return ob
 
     # ---------------------------------------------------------------- oracle (from the property text)
@@ -139,12 +205,12 @@ class C15(Prop):
             for role, d, ex, rg, fx in zip(("input", "output", "tmp"), j["dirs"], j["exist"], j["registered"], c["fix"]):
                 if d is None or d.startswith("!"):
                     return ("directory", f"job {j['name']}: {role} directory {d!r} is not under the work directory")
-                if j["nlocs"] < 1:
-                    return ("locations", f"job {j['name']} has no location")
-                if not ex:
-                    return ("exists", f"job {j['name']}: {role} directory {d} does not exist on every location")
-                if not rg:
-                    return ("registered", f"job {j['name']}: {role} directory {d} is not registered on every location")
+                if len(j["locs"]) != c.get("locations", 1):
+                    return ("locations", f"job {j['name']} has locations {j['locs']}, {c.get('locations', 1)} asked")
+                if ex:
+                    return ("exists", f"job {j['name']}: {role} directory {d} does not exist on location(s) {ex}")
+                if rg:
+                    return ("registered", f"job {j['name']}: {role} directory {d} is not registered on location(s) {rg}")
                 if fx is not None and d != "/B/" + fx:
                     return ("fixed", f"job {j['name']}: {role} directory fixed to /B/{fx} but is {d}")
                 if fx is None:
@@ -169,7 +235,7 @@ class C15(Prop):
             for d, fx in zip(j["dirs"], c["fix"]):
                 names.append(comps(d)[-1] if fx is None else "")
             jobs.append(f"CJob {self._cpath(j['dirs'][0])} {self._cpath(j['dirs'][1])} {self._cpath(j['dirs'][2])} "
-                        f"{coq_bool(all(j['exist']))} {coq_bool(all(j['registered']))}")
+                        f"{coq_bool(not any(j['exist']))} {coq_bool(not any(j['registered']))}")
         f = "mkfixed " + " ".join(coq_opt(("/B/" + x) if x else None, self._cpath) for x in c["fix"])
         return f"CJobs {self._cpath('/B/wd')} ({f}) {coq_list([coq_str(n) for n in names])} {coq_list(jobs)}"
 
@@ -177,12 +243,14 @@ class C15(Prop):
         return c["n"] >= 2
 
     def signature(self, c, o, clause):
-        return f"{clause}/{'fixed' if any(c['fix']) else 'free'}"
+        return f"{clause}/{c.get('dep', 'local')}/{'fixed' if any(c['fix']) else 'free'}"
 
     def shrink(self, c):
         if c["n"] > 1:
             yield {**c, "n": c["n"] // 2}
             yield {**c, "n": c["n"] - 1}
+        if c.get("nodes", 2) > 2:
+            yield {**c, "nodes": 2}
         for i in range(3):
             if c["fix"][i]:
                 yield {**c, "fix": c["fix"][:i] + [None] + c["fix"][i + 1:]}
